@@ -81,4 +81,61 @@ def run(ctx):
         ctx.check(not others, 'R32.1', X + 'InplaceXlate#%s.later' % name, l.loc,
                   'text produced by the %s loop cannot be matched by a later decoding loop' % name,
                   'text produced by the %s loop can start a match of the later pattern(s) %s (e.g. &amp;#65; → &#65; → A)' % (name, others))
+    # ---------------- R32.3 a loop that resumes its search at an offset must advance the offset by what it INSERTED, not by what it removed
+    n_off = 0
+    for (l, ss, name, reps) in decoders:
+        off = ss.args[3] if len(ss.args) > 3 else None
+        if off is None or off.k == 'CXXDefaultArgExpr' or off.strip(casts=True).value == 0:
+            continue
+        offl = [x.declid for x in off.walk() if x.k == 'DeclRefExpr' and x.decl and x.decl.get('sc') == 'local']
+        if not offl:
+            continue
+        n_off += 1
+        body = l.child('body')
+        repl = [c for c in body.walk() if c.is_call and c.callee is not None and c.callee.get('n') == 'replace' and len(c.args) >= 3]
+        adv = [n for n in body.walk() if n.k == 'CompoundAssignOperator' and n.op == '+=' and q.refers_to_decl(n.children[0], offl[0])]
+        bad = None
+        for r in repl:
+            for a in adv:
+                if f.cfg.has_vertex(a) and f.cfg.has_vertex(r) and f.cfg.vertex_of(a) in f.cfg.reach_from(f.cfg.vertex_of(r)) and \
+                        q.same_expr(a.children[1], r.args[1]):
+                    bad = (a, r)
+        ctx.check(bad is None, 'R32.3', X + 'InplaceXlate#%s.resume-offset' % name, (bad[0].loc if bad else l.loc),
+                  'the %s loop resumes after the text it inserted' % name,
+                  'after replacing %s characters by the decoded character the resume offset is advanced by the REMOVED length (`%s`): the characters that follow the '
+                  'reference are skipped, so a second reference close behind the first (`&lt;&gt;`) is left undecoded'
+                  % ('the matched', bad[0].text() if bad else ''))
+    if n_off == 0:
+        ctx.ok('R32.3', X + 'InplaceXlate#resume-offset', f.loc, 'no decoding loop resumes at an offset (both rescan from the start)')
+
+    # ---------------- R32.2 path lookups: both find overloads descend with the REMAINING path and select children by the NEXT component
+    finds = [g for g in prog.fns(X + 'find') if len(g.param_ids) >= 4]
+    ctx.need(len(finds) == 2, 'expected the two path-lookup overloads of XmlElement::find, found %d' % len(finds))
+    shapes = []
+    for g in finds:
+        ctx.saw(g)
+        what = g.param_ids[0]
+        rec = [c for c in g.calls() if c.callee_qp == X + 'find' and c.obj is not None and not any(x.k == 'MemberExpr' and x.decl.get('n') == 'root_' for x in c.obj.walk())]
+        ctx.need(len(rec) == 1, g.q + ': recursive descent call not found')
+        er = [c for c in g.calls() if c.callee is not None and c.callee.get('n') == 'equal_range']
+        ctx.need(len(er) == 1, g.q + ': child selection (equal_range) not found')
+        def role(n):
+            s_ = n.strip(casts=True)
+            if s_.k != 'DeclRefExpr' or s_.decl.get('sc') != 'local':
+                return '?'
+            defs = q.local_defs(g, s_.declid)
+            inits = [v for (dn, k, v) in defs if k == 'init' and v is not None]
+            erased = any(c.callee is not None and c.callee.get('n') == 'erase' and c.obj is not None and q.refers_to_decl(c.obj, s_.declid) for c in g.calls())
+            if inits and any(x.k == 'DeclRefExpr' and x.declid == what for x in inits[0].walk()) and erased:
+                return 'remaining-path'
+            if inits and any(x.k == 'ConditionalOperator' for x in inits[0].walk()) and any(c.callee is not None and c.callee.get('n') == 'substr' for c in q.calls_in(inits[0])):
+                return 'next-component'
+            return '?'
+        shapes.append((g, rec[0], role(rec[0].args[0]), er[0], role(er[0].args[0])))
+    for (g, rc_, r1, e_, r2) in shapes:
+        ctx.check(r1 == 'remaining-path' and r2 == 'next-component', 'R32.2', g.q.split('(')[0] + '/%d#descent' % len(g.param_ids), rc_.loc,
+                  'children are selected by the next path component and searched with the whole remaining path',
+                  'the recursive lookup is given the %s (`%s`) and children are selected by the %s (`%s`): with three or more path components the rest of the path is '
+                  'dropped, so the first child of the right name is returned whatever lies below it' % (r1, rc_.args[0].text(), r2, e_.args[0].text()))
+    ctx.floor('R32.2', 2)
     ctx.floor('R32.1', 3)
